@@ -25,6 +25,7 @@ TNext ==
     \/ Is("step_end") /\ P_StepEnd(E.polls, E.sent)
     \/ Is("crash") /\ P_Crash(E.h, E.obs)
     \/ Is("bounce") /\ P_Bounce(E.h, E.obs)
+    \/ Is("setlat") /\ P_SetLat(E.v)
     \/ Is("twin") /\ P_Twin(E.equal)
     \/ /\ l <= Len(Rec) /\ Rec[l].ev \in {"turn_end"}
        /\ l' = l + 1 /\ UNCHANGED pvars
